@@ -90,14 +90,25 @@ def one_recording(c, nsub, req, stem_in, stem_out, in_blocks, bpf_in, ncards, bl
     src = make_src(c, seed)
     dig = [[SpyReal(target_fwhm=32, num_bits=8) for _ in range(npol)] for _ in range(na)]
     fbs = []
+    lazy = c.get('lazy', False)
     for a in range(na):
         row = []
         for p in range(npol):
             f = sv.PolyphaseFilterbank(num_taps=M, num_branches=P)
-            f.estimate_channelized_stds(factor=200, seed=seed + 10 * a + p)
+            if lazy:
+                # leave the estimate to the backend (it is made lazily, in the middle of the first sub-block step);
+                # only the seed and size of that internal estimate are pinned so that the run is reproducible
+                def _est(factor=10000, seed=None, _f=f, _s=seed + 10 * a + p):
+                    return type(_f).estimate_channelized_stds(_f, factor=200, seed=_s)
+                f.estimate_channelized_stds = _est
+            else:
+                f.estimate_channelized_stds(factor=200, seed=seed + 10 * a + p)
             row.append(f)
         fbs.append(row)
-    stds0 = [[np.array(f.channelized_stds, copy=True) for f in row] for row in fbs]
+    if lazy:
+        stds0 = [[None for f in row] for row in fbs]
+    else:
+        stds0 = [[np.array(f.channelized_stds, copy=True) for f in row] for row in fbs]
     try:
         be = sv.RawVoltageBackend.from_data(input_file_stem=stem_in, antenna_source=src, digitizer=dig, filterbank=fbs,
                                             start_chan=c['start_chan'], num_subblocks=nsub)
@@ -196,7 +207,29 @@ def one_recording(c, nsub, req, stem_in, stem_out, in_blocks, bpf_in, ncards, bl
                     V('requantizer_calls', '%s: %d requantiser calls for %d sub-block steps' % (tag, len(calls), len(src.log)))
                     return False
                 rows_done = 0
+                if stds0[a][p] is None:
+                    if fbs[a][p].channelized_stds is None:
+                        V('no_estimate', '%s: no channelised-noise estimate after a recording' % tag)
+                        return False
+                    stds0[a][p] = np.array(fbs[a][p].channelized_stds, copy=True)
                 exp_cs = stds0[a][p] * (dig[a][p].target_std if c['digitize'] else 1.0)
+                # the synthetic stream through digitiser and filterbank: FIR+DFT definition over the WHOLE observed
+                # stream of this recording (nothing about caches / sub-blocks assumed)
+                if c['digitize']:
+                    pfb_in = np.concatenate([cl['q'] for cl in dig[a][p].calls])
+                else:
+                    pfb_in = np.concatenate([arr[a][p] for _, _, arr in src.log])
+                ref = vharness.pfb_definition(pfb_in, M, P, vharness.ref_window(M, P, 'hamming'))[:, c['start_chan']:c['start_chan'] + nc]
+                syn_in = np.concatenate([calls[j]['x'] for j in range(0, len(calls), 2)])
+                if syn_in.shape != ref.shape:
+                    V('spectra_count', '%s: %s channelised synthetic spectra, definition gives %s' % (tag, syn_in.shape, ref.shape))
+                    return False
+                err = np.abs(syn_in.astype(np.clongdouble) - ref)
+                if float(err.max()) > 1e-9 * (float(np.abs(ref).max()) + 1.0):
+                    row = int(np.argmax(err.max(axis=1)))
+                    V('pfb_mismatch', '%s recording#%d antenna %d pol %d: channelised synthetic spectrum %d (of %d) differs from the FIR+DFT '
+                      'definition of the digitised stream by %.3g' % (tag, rec, a, p, row, ref.shape[0], float(err.max())))
+                    return False
                 for j in range(0, len(calls), 2):
                     syn, fin = calls[j], calls[j + 1]
                     blk = rows_done // T
@@ -321,10 +354,11 @@ def run(ctx):
                         for layout in ((1, 1), (3, 3), (4, 2), (3, 2)):
                             for content in (('nothing', 'tone', 'tone+noise') if Tt else ('tone', 'tone+noise')):
                                 for digitize in (True, False):
-                                    for T in ((8, 12) if Tt else (8,)):
+                                    for T in ((8, 10, 14) if Tt else (10,)):
                                         if not Tt and content == 'tone' and not digitize and layout != (3, 2):
                                             continue
                                         cases.append(dict(bits=bits, npol=npol, nants=nants, directio=directio, aligned=aligned,
+                                                          lazy=(aligned != bool(directio)),
                                                           layout=list(layout), content=content, digitize=digitize, T=T,
                                                           nchans=(4 if bits == 8 else 3) if nants == 1 else 2, start_chan=0 if bits == 8 else 1,
                                                           recordings=2, seed=ctx.seed))
@@ -339,4 +373,4 @@ def run(ctx):
                      'the synthetic stage may or may not round (|q - y| <= 0.5 + eps accepted); the recorded block must be the '
                      'requantisation of (observed synthetic + decoded input) with the block\'s own mean/deviation as targets',
                      'rounding ties accepted either way'],
-        coverage_extra={'bounds': {'taps': M, 'branches': P, 'T': [8, 12] if Tt else [8]}})
+        coverage_extra={'bounds': {'taps': M, 'branches': P, 'T': [8, 10, 14] if Tt else [10], 'lazy_estimate': 'half of the cases leave the channelised-noise estimate to the backend'}})
